@@ -174,7 +174,9 @@ void wb_asan_ctxswitch(const void *p_abandoned, const void *p_new)
  *   - the previous user has ended (stream joined; the pool is then used by whoever revives or
  *     frees the stream);
  *   - the new user was created after the previous user's last access (pthread_create: the
- *     creator sets up the new stream's scheduler from the new stream's pool, then starts it).
+ *     creator sets up the new stream's scheduler from the new stream's pool, then starts it);
+ *   - the previous user is the stream's own OS thread, parked after a join.
+ * An entry is dropped when the pool is initialised or destroyed (the address may be reused).
  * The two pools for external threads in ABTI_global are protected by spinlocks: exempt. ---- */
 #define WB_LP_N 128
 static struct {
@@ -183,6 +185,15 @@ static struct {
     uint64_t last;
 } wb_lp[WB_LP_N];
 static int wb_nlp;
+void wb_local_pool_reset(const void *pool)
+{
+    /* the pool starts or ends its life: whoever used this address before is history */
+    for (int i = 0; i < wb_nlp; i++)
+        if (wb_lp[i].pool == pool) {
+            wb_lp[i] = wb_lp[--wb_nlp];
+            return;
+        }
+}
 void wb_local_pool_access(const void *pool)
 {
     ABTI_global *g = gp_ABTI_global;
@@ -195,7 +206,12 @@ void wb_local_pool_access(const void *pool)
             if (o != cur) {
                 int ended = G.T[o].state == ST_DONE || G.T[o].state == ST_FREE;
                 int created_later = G.T[cur].born >= wb_lp[i].last;
-                if (!ended && !created_later)
+                /* a joined stream's OS thread stays alive, parked on the condition variable of
+                 * its own ABTI_xstream (the structure that also contains the pool) until it is
+                 * revived or freed: the join ordered its accesses before ours */
+                const char *wa = (const char *)G.T[o].wait_addr;
+                int parked = G.T[o].state == ST_BLOCKED && wa && wa > (const char *)pool - (long)sizeof(ABTI_xstream) && wa < (const char *)pool + (long)sizeof(ABTI_xstream);
+                if (!ended && !created_later && !parked)
                     sim_fail("M-local-pool:foreign-access",
                              "the stream-local memory pool %p, last used by sim thread %d at step %lu, is accessed by sim thread %d (created at step %lu) while thread %d is alive: unsynchronised, a data race",
                              pool, o, (unsigned long)wb_lp[i].last, cur, (unsigned long)G.T[cur].born, o);
